@@ -279,7 +279,13 @@ func genUserMethods(r *RNG) *uCase {
 				feats["early-return"] = true
 				feats[fmt.Sprintf("early-return-form-%d", form)] = true
 			}
-			switch r.Intn(3) {
+			switch r.Intn(4) {
+			case 3:
+				// an instance of a user class, at top level or inside a namespace
+				oc := Pick(r, []string{"Retbox", "Shapes::Retbox"})
+				m.def = append(m.def, "  "+oc+".new")
+				ret = append(ret, oc)
+				feats["returns-object"] = true
 			case 0:
 				c := Pick(r, scal)
 				m.def = append(m.def, "  "+nLit(c))
@@ -306,6 +312,13 @@ func genUserMethods(r *RNG) *uCase {
 	rowOf := func() int { return len(lines) + 1 }
 	emit := func(s string) { lines = append(lines, s) }
 	emit("flag = true")
+	// classes a method may return an instance of
+	emit("class Retbox")
+	emit("end")
+	emit("module Shapes")
+	emit("  class Retbox")
+	emit("  end")
+	emit("end")
 	for _, l := range pre {
 		emit(l)
 	}
